@@ -435,6 +435,13 @@ func intrinsicTable0() map[string]func(ex *Exec, f *Frame, call *ssa.Call, args 
 			}
 			return Or(alts...), reach
 		},
+		"verifPrfPlusSpec": func(ex *Exec, f *Frame, call *ssa.Call, args []Value, reach *Term) (Value, *Term) {
+			if ex.hmacNewHook == nil {
+				ex.unsupported("verifPrfPlusSpec needs //verif:bytes")
+				return ex.freshValue(call.Type(), "prfplus", true), reach
+			}
+			return ex.prfPlusSpec(args[0].(IfaceV), args[1].(SliceV), args[2].(*Term)), reach
+		},
 		"verifFresh": func(ex *Exec, f *Frame, call *ssa.Call, args []Value, reach *Term) (Value, *Term) {
 			// true iff the slice is empty or its array was allocated during this execution
 			s := args[0].(SliceV)
